@@ -938,3 +938,193 @@ Proof.
     destruct (has_auth au op) eqn:E2; [|cbn in H; contradiction]. cbn in H. unfold upd in H.
     destruct (N.eqb_spec a user); [|contradiction]. subst. exists op, au. auto.
 Qed.
+
+(* ------------------------------------------------------------------ *)
+(* WHO is the admin: the admin part of the state (a_now, a_rt) is a run of the C07 handshake machine *)
+
+Definition hand_call (cl : call) : RoleTransfer.call :=
+  match cl with
+  | TransferAdmin n lu au => RoleTransfer.Offer n lu au
+  | AcceptAdmin au => RoleTransfer.Accept au
+  | RenounceAdmin au => RoleTransfer.Renounce au
+  | AdminRestricted au => RoleTransfer.Guarded au
+  | Advance n => RoleTransfer.Advance n
+  | _ => RoleTransfer.Advance 0
+  end.
+Definition hand_state (s : st) : RoleTransfer.state := {| now := a_now s; rts := a_rt s; ctr := 0 |}.
+
+Lemma remove_rest : forall s account r s',
+  remove_from_role_enumeration s account r = Ok s' -> a_now s' = a_now s /\ a_rt s' = a_rt s.
+Proof.
+  intros s account r s' H. unfold remove_from_role_enumeration in H.
+  destruct (N.eqb (a_count s r) 0); [discriminate|].
+  destruct (a_has s account r) as [idx|]; [|discriminate]. cbn [of_option bind] in H.
+  destruct (negb (N.eqb idx (a_count s r - 1))); [destruct (a_member s r (a_count s r - 1)); [|discriminate]|];
+  cbn in H; inversion H; cbn; auto.
+Qed.
+
+(* one step of the contract = one step of the handshake machine on (ledger, admin, pending admin) *)
+Lemma hand_step_proj : forall c s cl,
+  let r := RoleTransfer.step AC (host c) (hand_state s) (hand_call cl) in
+  now (fst r) = a_now (fst (step c s cl)) /\ rts (fst r) = a_rt (fst (step c s cl)) /\
+  match cl with
+  | TransferAdmin _ _ _ | AcceptAdmin _ | RenounceAdmin _ | AdminRestricted _ =>
+      snd r = if snd (step c s cl) then Ok 0 else Fail
+  | _ => snd r = Ok 0
+  end.
+Proof.
+  intros c s cl. unfold step.
+  assert (Same : forall s', a_now s' = a_now s -> a_rt s' = a_rt s ->
+            now (fst (RoleTransfer.step AC (host c) (hand_state s) (RoleTransfer.Advance 0))) = a_now s' /\
+            rts (fst (RoleTransfer.step AC (host c) (hand_state s) (RoleTransfer.Advance 0))) = a_rt s' /\
+            snd (RoleTransfer.step AC (host c) (hand_state s) (RoleTransfer.Advance 0)) = Ok 0).
+  { intros s' A B. cbn. rewrite A, B. repeat split; auto. lia. }
+  destruct cl; cbn [hand_call exec].
+  - unfold grant_role. destruct (has_auth auths caller); cbn [guard bind]; [|apply Same; reflexivity].
+    destruct (admin_or_admin_role s r caller); cbn [guard bind]; [|apply Same; reflexivity].
+    destruct (has_role s account r); [apply Same; reflexivity|]. unfold add_to_role_enumeration.
+    destruct (N.eqb (a_count s r) 0); [destruct (N.eqb (N.of_nat (length (a_existing s))) (max_roles c)); [apply Same; reflexivity|]|];
+    cbn [bind]; (destruct (Z.of_N (a_count s r) + 1 <=? MAXU32); cbn [guard bind fst]; apply Same; reflexivity).
+  - unfold revoke_role. destruct (has_auth auths caller); cbn [guard bind]; [|apply Same; reflexivity].
+    destruct (admin_or_admin_role s r caller); cbn [guard bind]; [|apply Same; reflexivity].
+    destruct (has_role s account r); cbn [guard bind]; [|apply Same; reflexivity].
+    destruct (remove_from_role_enumeration s account r) as [s1|] eqn:E; cbn [bind fst]; [|apply Same; reflexivity].
+    destruct (remove_rest _ _ _ _ E). apply Same; cbn; assumption.
+  - unfold renounce_role. destruct (has_auth auths caller); cbn [guard bind]; [|apply Same; reflexivity].
+    destruct (has_role s caller r); cbn [guard bind]; [|apply Same; reflexivity].
+    destruct (remove_from_role_enumeration s caller r) as [s1|] eqn:E; cbn [bind fst]; [|apply Same; reflexivity].
+    destruct (remove_rest _ _ _ _ E). apply Same; cbn; assumption.
+  - unfold set_role_admin. destruct (enforce_holder_auth auths (a_rt s)); cbn [bind fst]; apply Same; reflexivity.
+  - cbn [RoleTransfer.step hand_state now rts]. destruct (offer (host c) (a_now s) auths new live_until (a_rt s)); cbn; auto.
+  - cbn [RoleTransfer.step hand_state now rts]. destruct (accept AC (a_now s) auths (a_rt s)); cbn; auto.
+  - cbn [RoleTransfer.step hand_state now rts]. destruct (renounce (a_now s) auths (a_rt s)); cbn; auto.
+  - cbn [RoleTransfer.step hand_state now rts]. destruct (enforce_holder_auth auths (a_rt s)); cbn; auto.
+  - destruct (has_role s caller (minter c)); cbn [guard bind]; [|apply Same; reflexivity].
+    destruct (has_auth auths caller); cbn [guard bind fst]; apply Same; reflexivity.
+  - destruct (has_any_role c s caller); cbn [guard bind]; [|apply Same; reflexivity].
+    destruct (has_auth auths caller); cbn [guard bind fst]; apply Same; reflexivity.
+  - destruct (has_any_role c s caller); cbn [guard bind]; [|apply Same; reflexivity].
+    destruct (has_auth auths caller); cbn [guard bind fst]; apply Same; reflexivity.
+  - destruct (has_role s from (burner c)); cbn [guard bind]; [|apply Same; reflexivity].
+    destruct (has_auth auths from); cbn [guard bind]; [|apply Same; reflexivity].
+    destruct (n_owner (a_nft s) token) as [o|]; cbn [of_option bind]; [|apply Same; reflexivity].
+    destruct (N.eqb o from); cbn [guard bind fst]; apply Same; reflexivity.
+  - destruct (has_role s spender (burner c)); cbn [guard bind]; [|apply Same; reflexivity].
+    destruct (has_auth auths spender); cbn [guard bind]; [|apply Same; reflexivity].
+    destruct (N.eqb spender from || match approved_of (a_now s) (a_nft s) token with Some ap => N.eqb ap spender | None => false end); cbn [guard bind]; [|apply Same; reflexivity].
+    destruct (n_owner (a_nft s) token) as [o|]; cbn [of_option bind]; [|apply Same; reflexivity].
+    destruct (N.eqb o from); cbn [guard bind fst]; apply Same; reflexivity.
+  - destruct (has_auth auths approver); cbn [guard bind]; [|apply Same; reflexivity].
+    destruct (n_owner (a_nft s) token) as [o|]; cbn [of_option bind]; [|apply Same; reflexivity].
+    destruct (N.eqb approver o); cbn [guard bind]; [|apply Same; reflexivity].
+    destruct (live_until =? 0); [cbn [fst]; apply Same; reflexivity|].
+    destruct (negb (live_until <? a_now s)); cbn [guard bind]; [|apply Same; reflexivity].
+    destruct (live_until - a_now s <=? max_ttl (host c) - 1); cbn [guard bind fst]; apply Same; reflexivity.
+  - cbn. repeat split; auto.
+Qed.
+
+Theorem admin_is_handshake_run : forall c s cs,
+  now (RoleTransfer.run AC (host c) (hand_state s) (map hand_call cs)) = a_now (run c s cs) /\
+  rts (RoleTransfer.run AC (host c) (hand_state s) (map hand_call cs)) = a_rt (run c s cs).
+Proof.
+  intros c s cs. revert s. induction cs as [|cl r IH]; intros s; [split; reflexivity|].
+  cbn [map]. rewrite Proofs.RoleTransfer.run_cons. change (run c s (cl :: r)) with (run c (fst (step c s cl)) r).
+  destruct (hand_step_proj c s cl) as [A [B _]].
+  specialize (IH (fst (step c s cl))).
+  (* the handshake machine only looks at (now, rts) *)
+  assert (Ext : forall cs st st', now st = now st' -> rts st = rts st' ->
+            now (RoleTransfer.run AC (host c) st cs) = now (RoleTransfer.run AC (host c) st' cs) /\
+            rts (RoleTransfer.run AC (host c) st cs) = rts (RoleTransfer.run AC (host c) st' cs)).
+  { clear. intros cs. induction cs as [|cl r IH]; intros st st' A B; [auto|].
+    rewrite !Proofs.RoleTransfer.run_cons. apply IH.
+    - destruct cl; cbn [RoleTransfer.step]; rewrite <- ?A, <- ?B;
+        repeat match goal with |- context [match ?x with Ok _ => _ | Fail => _ end] => destruct x end; cbn; auto; lia.
+    - destruct cl; cbn [RoleTransfer.step]; rewrite <- ?A, <- ?B;
+        repeat match goal with |- context [match ?x with Ok _ => _ | Fail => _ end] => destruct x end; cbn; auto. }
+  destruct (Ext (map hand_call r) (fst (RoleTransfer.step AC (host c) (hand_state s) (hand_call cl))) (hand_state (fst (step c s cl))) A B) as [E1 E2].
+  rewrite E1, E2. exact IH.
+Qed.
+
+(* the admin changes only by a successful accept_admin_transfer (to an authorising account, the live pending
+   admin) or a successful renounce_admin (authorised by the admin); never otherwise, never by the passing of time *)
+Theorem admin_frame : forall c s cl,
+  holder (a_rt (fst (step c s cl))) <> holder (a_rt s) ->
+  snd (step c s cl) = true /\
+  ((exists au new, cl = AcceptAdmin au /\ holder (a_rt s) <> None /\ tget (a_now s) (pending (a_rt s)) = Some new /\
+                   has_auth au new = true /\ holder (a_rt (fst (step c s cl))) = Some new) \/
+   (exists au, cl = RenounceAdmin au /\ signed_by (holder (a_rt s)) au = true /\
+               tget (a_now s) (pending (a_rt s)) = None /\ holder (a_rt (fst (step c s cl))) = None)).
+Proof.
+  intros c s cl H. destruct (hand_step_proj c s cl) as [_ [B _]].
+  destruct cl; cbn [hand_call] in B;
+    try (exfalso; apply H; rewrite <- B; cbn; reflexivity).
+  - exfalso. apply H. rewrite <- B. cbn. unfold offer. destruct (enforce_holder_auth auths (a_rt s)); cbn; [|reflexivity].
+    destruct (transfer_role (host c) (a_now s) (pending (a_rt s)) new live_until); reflexivity.
+  - unfold step in *. cbn [exec] in *. unfold accept, accept_transfer in *.
+    destruct (holder (a_rt s)) as [hh|] eqn:Eh; [|exfalso; apply H; cbn; rewrite Eh; reflexivity].
+    destruct (tget (a_now s) (pending (a_rt s))) as [pa|] eqn:Et; [|exfalso; apply H; cbn; rewrite Eh; reflexivity].
+    destruct (has_auth auths pa) eqn:Ea; [|exfalso; apply H; cbn; rewrite Eh; reflexivity].
+    cbn. split; [reflexivity|]. left. exists auths, pa. repeat split; auto. discriminate.
+  - unfold step in *. cbn [exec] in *. unfold renounce in *. rewrite Proofs.RoleTransfer.enforce_closed in *.
+    unfold signed_by. destruct (Proofs.RoleTransfer.signed_by (holder (a_rt s)) auths) eqn:Es; [|exfalso; apply H; reflexivity].
+    destruct (holder (a_rt s)) as [hh|] eqn:Eh; [|discriminate]. cbn [of_option bind] in *.
+    destruct (tget (a_now s) (pending (a_rt s))) eqn:Et; [exfalso; apply H; cbn; rewrite Eh; reflexivity|].
+    cbn. split; [reflexivity|]. right. exists auths. repeat split; auto.
+  - exfalso. apply H. rewrite <- B. cbn. destruct (enforce_holder_auth auths (a_rt s)); reflexivity.
+Qed.
+
+Theorem init_empty : forall start adm a r, abs (init start adm) a r = false.
+Proof. reflexivity. Qed.
+
+Theorem accept_admin_semantics : forall c s au,
+  snd (step c s (AcceptAdmin au)) = true ->
+  holder (a_rt s) <> None /\
+  exists new, tget (a_now s) (pending (a_rt s)) = Some new /\ has_auth au new = true /\
+              holder (a_rt (fst (step c s (AcceptAdmin au)))) = Some new.
+Proof.
+  intros c s au H. unfold step in *. cbn [exec] in *. unfold accept, accept_transfer in *.
+  destruct (holder (a_rt s)) as [hh|]; [|discriminate].
+  destruct (tget (a_now s) (pending (a_rt s))) as [pa|]; [|discriminate].
+  destruct (has_auth au pa) eqn:Ea; [|discriminate]. cbn. split; [discriminate|]. exists pa. auto.
+Qed.
+
+(* the set "granted and not since revoked", read off the history of successful calls *)
+Fixpoint outcomes (c : cfg) (s : st) (cs : list call) : list (call * bool) :=
+  match cs with
+  | [] => []
+  | cl :: r => (cl, snd (step c s cl)) :: outcomes c (fst (step c s cl)) r
+  end.
+Definition set_op (acc : addr -> role -> bool) (co : call * bool) : addr -> role -> bool :=
+  fun a r' =>
+    if snd co then
+      match fst co with
+      | Grant account r _ _ => acc a r' || (N.eqb a account && N.eqb r' r)
+      | Revoke account r _ _ => acc a r' && negb (N.eqb a account && N.eqb r' r)
+      | RenounceRole r caller _ => acc a r' && negb (N.eqb a caller && N.eqb r' r)
+      | _ => acc a r'
+      end
+    else acc a r'.
+
+Lemma fold_set_op_ext : forall l acc acc', (forall a r, acc a r = acc' a r) ->
+  forall a r, fold_left set_op l acc a r = fold_left set_op l acc' a r.
+Proof.
+  intros l. induction l as [|co t IH]; intros acc acc' H a r; [apply H|].
+  cbn [fold_left]. apply IH. intros a0 r0. unfold set_op. destruct (snd co); [|apply H].
+  destruct (fst co); rewrite ?H; reflexivity.
+Qed.
+
+Theorem set_is_history : forall c start adm cs a r,
+  abs (run c (init start adm) cs) a r =
+  fold_left set_op (outcomes c (init start adm) cs) (fun _ _ => false) a r.
+Proof.
+  intros c start adm cs.
+  assert (G : forall cs s acc, Inv s -> (forall a r, abs s a r = acc a r) ->
+            forall a r, abs (run c s cs) a r = fold_left set_op (outcomes c s cs) acc a r).
+  { clear cs. intros cs. induction cs as [|cl t IH]; intros s acc HI H a r; [apply H|].
+    cbn [outcomes fold_left]. change (run c s (cl :: t)) with (run c (fst (step c s cl)) t).
+    destruct (step_spec c s cl HI) as [HI' [HA _]].
+    rewrite (IH (fst (step c s cl)) (set_op acc (cl, snd (step c s cl))) HI'); [reflexivity|].
+    intros a0 r0. rewrite HA. unfold abs_after, set_op. cbn [fst snd].
+    destruct (snd (step c s cl)); [|apply H]. destruct cl; rewrite ?H; reflexivity. }
+  intros a r. apply G; [apply inv_init|]. intros; reflexivity.
+Qed.
